@@ -45,7 +45,7 @@ def oracle(cases, obs, light=False):
             if light:
                 continue
             # every other location holds the last value assigned to it
-            flat = lambda p: [p[0]] + [s[1] for s in p[1:]]
+            flat = mc.flat
             store = {json.dumps(p): v for p, v in o["store"]}
             if op[0] == "set" and o["err"] is None:
                 key = json.dumps(flat(op[1]))
